@@ -68,7 +68,14 @@ type Case struct {
 	Perturb []int `json:"perturb,omitempty"` // hook-site perturbation vector (sched.Perturb)
 	Rounds  int   `json:"rounds,omitempty"`  // storage: passes over the chunk list (retries)
 	IndexK  int   `json:"index_k,omitempty"` // index: the index output accepts this many bytes, then fails (-1: /dev/full through LocalIndexStore)
-	Retry   int   `json:"retry,omitempty"`   // cli: --error-retry value; s3/http targets: StoreOptions.ErrorRetry
+	// index: "" = an io.Writer that fails after IndexK bytes; "http" = RemoteHTTPIndex -> scripted faults -> desync.NewHTTPIndexHandler ->
+	// LocalIndexStore; "http-plain" = RemoteHTTPIndex -> scripted handler keeping the uploaded bytes; "s3", "sftp", "local".
+	// IndexFaults = numbers of the PUT requests that are faulted (http), IndexMode = how (500 | 503 | 500-early | reset;
+	// s3: initiate | part | complete; local: overwrite-longer | dir-in-the-way; sftp: readonly)
+	IndexTarget string `json:"index_target,omitempty"`
+	IndexMode   string `json:"index_mode,omitempty"`
+	IndexFaults []int  `json:"index_faults,omitempty"`
+	Retry       int    `json:"retry,omitempty"` // cli: --error-retry value; s3/http targets: StoreOptions.ErrorRetry
 
 	// the target store of chop/make/copy/stream: "" or "mem" (dx.MemStore), "local" (desync.LocalStore
 	// in a scratch directory), "s3" (desync.S3Store through internal/fakes3), "http" (desync.RemoteHTTP
@@ -211,12 +218,16 @@ func genFaults(t *rapid.T, op string) []Fault {
 
 func genCase(t *rapid.T) Case {
 	if cliEnabled() && rapid.IntRange(0, 7).Draw(t, "cli") == 0 {
+		if rapid.IntRange(0, 5).Draw(t, "cliindex") == 0 {
+			return genCLIIndex(t)
+		}
 		return genCLI(t)
 	}
 	var c Case
 	c.Op = rapid.SampledFrom([]string{"chop", "chop", "chop", "make", "make", "copy", "copy", "stream", "stream", "storage", "index"}).Draw(t, "op")
 	if c.Op == "index" {
 		c.IndexK = rapid.IntRange(-1, 6000).Draw(t, "indexk")
+		genIndexTarget(t, &c)
 	}
 	if rapid.Bool().Draw(t, "nsmall") {
 		c.N = rapid.SampledFrom([]int{1, 2, 2, 3, 4, 4, 8, 16}).Draw(t, "n")
@@ -422,6 +433,9 @@ func clamp(v, lo, hi int) int {
 }
 
 func run(c Case) (o hx.Outcome) {
+	if c.Op == "cli-index" {
+		return runCLIIndex(c)
+	}
 	if strings.HasPrefix(c.Op, "cli-") {
 		return runCLI(c)
 	}
@@ -829,6 +843,7 @@ var spec = &hx.Spec[Case]{
 		"Copy over the index's IDs incl. duplicates, ChunkStream, ChunkStorage used directly with retries; thorough: desync make/chop/cache/tar -i against a harness HTTP store}; target optionally prefilled; " +
 		"target store of chop/make/copy/stream in {MemStore; desync.LocalStore in a scratch directory (compressed/uncompressed; optionally with a regular file in place of a prefix directory; optionally in a child process under RLIMIT_FSIZE so that chunk file writes are cut short); " +
 		"desync.S3Store through the in-process fake S3 (compressed/uncompressed, ErrorRetry 0/1/3, scripted 403 on the k-th PUT/HEAD); desync.RemoteHTTP -> desync.NewHTTPHandler -> LocalStore (ErrorRetry 0/1/3, scripted 500 on the k-th PUT/HEAD)}, judged on the backing files/objects read through a back door; " +
+		"index op: the reference index written through an io.Writer failing after k bytes, or through RemoteHTTPIndex (desync's HTTPIndexHandler over LocalIndexStore / a plain handler; faulted PUT attempts x ErrorRetry 0/1/3 x fault mode), S3IndexStore, SFTPIndexStore, LocalIndexStore; nil => stored bytes decode to exactly that index, unabsorbed fault => error, nothing partial under the name after an error; " +
 		"fault schedule = set of (store, call kind has/store/get, call number k) that fail (CLI: the k-th HEAD/PUT/GET answers 500); ChopFile also on a file with one bit flipped after indexing; perturbation vector for chop.job/copy.job/chunkstream.job and the store callbacks); " +
 		"TestEnum: every single k (1..calls+1) x every call kind x every operation x several n for inputs of <= 40 chunks, and a bit flip in every chunk; " +
 		"oracle: nil => every ID of the given/produced index is in the target and hashes to it (crypto/sha512 directly), produced index == reference chunker, Length == len(input); >= 1 delivered failure => error; flipped file => error; the target never holds bytes under a foreign ID; " +
@@ -837,6 +852,7 @@ var spec = &hx.Spec[Case]{
 		"in-memory targets keep exactly what they are given; an injected failure has no side effect (the failing call stores nothing)",
 		"real targets: backing files/objects are decoded with klauspost/zstd and hashed with crypto/sha512 by the harness; S3 is the in-process fake of internal/fakes3 (path-style, V2 credentials, keep-alive off, minio.MaxRetry=1, faults are final 403s); HTTP is plain HTTP/1.1 on loopback without keep-alive",
 		"retry policies of S3Store/RemoteHTTP are modelled only in their unambiguous zone (a request faulted on more attempts than ErrorRetry permits has failed; fewer faults than attempts on every request is recovered); a faulted HEAD on S3 is absorbed by design (S3Store.HasChunk maps every error to absent)",
+		"index stores: RemoteHTTPIndex over plain HTTP/1.1 on loopback without keep-alive, the k-th PUT faulted (500/503 after reading the body, 500 at once, TCP reset); one upload = one logical request, attempt k = k-th PUT; S3IndexStore through the fake (multipart, faults are final 403s); SFTPIndexStore through internal/fakessh (fixed grid only); stored bytes decoded with the reference index codec",
 		"short writes: RLIMIT_FSIZE in a re-exec'd child of the test binary; the set of chunk files that cannot be written is known exactly only for uncompressed stores",
 		"a scheduled failure whose call number is never reached is 'not delivered'; success is then legitimate",
 		"contexts are never cancelled here (C07)",
@@ -849,6 +865,8 @@ var spec = &hx.Spec[Case]{
 		"scheduled-not-delivered", "dup-race-possible", "same-id-asked-twice", "flip", "flip-in-duplicated-chunk", "prefilled", "prefilled-all", "src-missing", "success", "error-returned",
 		"perturbed:chop.job", "perturbed:copy.job", "perturbed:chunkstream.job", "storage:retry-after-failure", "empty-index",
 		"target:mem", "target:local", "target:s3", "target:http", "target:uncompressed", "s3:error-retry=0", "s3:error-retry=1", "s3:error-retry=3", "http:error-retry=0", "http:error-retry=3",
+		"index-target:http", "index-target:http-plain", "index-target:s3", "index-target:local", "index-target:sftp", "index-target:http:first-put-fails-then-ok", "index-target:http:all-attempts-fail",
+		"index-target:http:error-retry=0", "index-target:http:error-retry=3", "index-target:s3:fault-delivered", "index-target:local:dir-in-the-way", "index:stored", "index:store-error",
 		"s3:fault-not-absorbed", "s3:fault-absorbed-by-retry", "http:fault-not-absorbed", "http:fault-absorbed-by-retry", "local:blocked-dir", "local:short-write", "local:short-write-delivered"},
 	Gen:      genCase,
 	Run:      run,
@@ -861,7 +879,7 @@ func TestMain(m *testing.M) {
 		childMain(job) // never returns
 	}
 	if cliEnabled() {
-		spec.Required = append(spec.Required, "op:cli-make", "op:cli-chop", "op:cli-cache", "op:cli-tar", "cli:delivered-500", "cli:exit-0", "cli:exit-nonzero")
+		spec.Required = append(spec.Required, "op:cli-make", "op:cli-chop", "op:cli-cache", "op:cli-tar", "op:cli-index", "cli-index:first-put-fails-then-ok", "cli:delivered-500", "cli:exit-0", "cli:exit-nonzero")
 	}
 	hx.Main(m)
 }
@@ -889,6 +907,55 @@ func enumBlobs() []Case {
 // The (input, n, operation) slots are dealt round-robin to the shards of a run; every shard
 // enumerates its slots completely, so the merged evidence covers the whole grid.
 // TestEnumIndex: every byte count at which the index output can fail, for each enumeration input.
+// TestEnumIndexTargets: every (ErrorRetry, set of faulted first attempts, fault mode) for the two
+// HTTP index servers, every S3 multipart step faulted, local and SFTP variants; dealt to the shards.
+func TestEnumIndexTargets(t *testing.T) {
+	slot, cases := 0, 0
+	mine := func() bool { slot++; return (slot-1)%hx.Shards() == hx.Shard() }
+	try := func(c Case) bool {
+		if !mine() {
+			return true
+		}
+		cases++
+		return hx.Case(t, spec, c)
+	}
+	blobs := enumBlobs()
+	for bi, b := range []Case{blobs[0], {Sizes: blobs[0].Sizes, Pieces: nil}} { // bi == 1: the empty index
+		for _, tgt := range []string{"http", "http-plain"} {
+			for _, retry := range []int{0, 1, 3} {
+				for _, mode := range []string{"500", "503", "500-early", "reset"} {
+					for _, faults := range [][]int{nil, {1}, {1, 2}, {1, 2, 3}, {1, 2, 3, 4}, {2}} {
+						if bi == 1 && (mode != "503" || len(faults) > 1) {
+							continue
+						}
+						if !try(Case{Op: "index", Pieces: b.Pieces, Sizes: b.Sizes, IndexTarget: tgt, Retry: retry, IndexMode: mode, IndexFaults: faults}) {
+							return
+						}
+					}
+				}
+			}
+		}
+	}
+	b := blobs[0]
+	for _, mode := range []string{"", "initiate", "part", "complete"} {
+		if !try(Case{Op: "index", Pieces: b.Pieces, Sizes: b.Sizes, IndexTarget: "s3", IndexMode: mode, IndexFaults: []int{1}}) {
+			return
+		}
+	}
+	for _, mode := range []string{"", "overwrite-longer", "dir-in-the-way"} {
+		if !try(Case{Op: "index", Pieces: b.Pieces, Sizes: b.Sizes, IndexTarget: "local", IndexMode: mode}) {
+			return
+		}
+	}
+	for _, mode := range []string{"", "readonly"} {
+		if !try(Case{Op: "index", Pieces: b.Pieces, Sizes: b.Sizes, IndexTarget: "sftp", IndexMode: mode}) {
+			return
+		}
+	}
+	hx.AddNote("enum_index_target_cases", cases)
+	hx.Exhaustive("index upload over HTTP: ErrorRetry {0,1,3} x faulted attempts {none, 1, 1-2, 1-3, 1-4, 2} x fault mode {500, 503, 500 before the body, reset} x {desync's index handler, plain handler}")
+}
+
 func TestEnumIndex(t *testing.T) {
 	if hx.Shard() != 0 {
 		t.Skip()
@@ -1149,6 +1216,9 @@ func (f *failAfter) Write(p []byte) (int, error) {
 // output fails at any byte the operation must report it, and an index it reports as written
 // must be complete.
 func runIndexWrite(c Case) (o hx.Outcome) {
+	if c.IndexTarget != "" {
+		return runIndexStore(c)
+	}
 	blob := gen.Expand(c.Pieces)
 	sz := c.Sizes
 	if sz.Min < 48 || sz.Avg < sz.Min || sz.Max <= sz.Avg {
